@@ -123,7 +123,7 @@ pub fn hostile_keys() -> Vec<String> {
     let mut v: Vec<String> = [
         "", " ", "a", "b", "0", "1", "-1", "01", "a b", "a.b", "a'b", "'", "''", "'a'", "\"a\"", "\"", "a\"b", "\\", "a\\b", "\\n", "/", "a/b", "~", "~0", "~1", "a~b", "%", "*", "$", "@", "[0]",
         "\u{8}", "\t", "\n", "\u{c}", "\r", "\u{1}", "\u{1f}", "\u{0}", "\u{7f}", "\u{e9}", "\u{263a}", "\u{1d11e}", "\u{ffff}", "e\u{301}", "\u{a0}b", "b\u{a0}", "\u{85}", "\u{2028}", "\u{3000}x",
-        "length", "true", "null", "and", "_", "_1", "A", "Z9",
+        "length", "true", "null", "and", "_", "_1", "A", "Z9", "gr\u{f6}\u{df}e\\breite", "\u{446}\u{435}\u{43d}\u{430}/\u{448}\u{442}", "\u{e9}\\", "/\u{1f600}",
     ]
     .iter()
     .map(|s| s.to_string())
@@ -183,6 +183,75 @@ pub fn curated_docs() -> Vec<J> {
     // wide array
     docs.push(a((0..200).map(i).collect()));
     docs
+}
+
+/// strings from many Unicode ranges and of boundary lengths
+pub fn boundary_strings() -> Vec<String> {
+    let mut v: Vec<String> = vec![];
+    for n in [0usize, 1, 7, 8, 15, 16, 17, 23, 24, 31, 32, 33, 63, 64, 65, 127, 128, 129, 255, 256, 257, 1000, 2047, 2048, 2049, 4096, 10000] {
+        v.push("a".repeat(n));
+        v.push("\u{e9}".repeat(n));
+        v.push(format!("{}\u{1f600}", "b".repeat(n)));
+    }
+    for s in ["\u{391}\u{3b2}\u{3b3}", "\u{65e5}\u{672c}\u{8a9e}", "\u{5d0}\u{5d1}", "\u{fffd}", "\u{e000}", "\u{10ffff}", "\u{d7ff}", "e\u{301}\u{301}", "\u{1f468}\u{200d}\u{1f469}", "\u{0}", "\u{7f}\u{80}", "\u{ff21}", "\u{131}\u{130}", "\u{df}", "\u{1e9e}"] {
+        v.push(s.to_string());
+    }
+    v
+}
+
+/// documents whose sizes sit on the boundaries where size-dependent code paths usually switch:
+/// wide arrays / objects, long strings, deep nests, integers near 2^53 and the i64 limits
+pub fn boundary_docs() -> Vec<J> {
+    let mut docs = vec![];
+    let lens = [15usize, 16, 17, 31, 32, 33, 63, 64, 65, 100, 127, 128, 129, 255, 256, 257, 1000];
+    for &n in &lens {
+        // wide array of mixed scalars and small containers
+        docs.push(J::Arr((0..n).map(|i| match i % 7 { 0 => J::int(i as i64), 1 => J::str(&format!("s{}", i)), 2 => J::Obj(vec![("a".into(), J::int(i as i64)), ("b".into(), J::Arr(vec![J::int(1), J::int(i as i64 % 3)]))]), 3 => J::Arr(vec![J::int(i as i64), J::int(0)]), 4 => J::float(i as f64 + 0.5), 5 => J::Null, _ => J::Bool(i % 2 == 0) }).collect()));
+        // wide object
+        docs.push(J::Obj((0..n).map(|i| (format!("k{:04}", i), if i % 5 == 0 { J::Obj(vec![("a".into(), J::int(i as i64))]) } else { J::int(i as i64) })).collect()));
+    }
+    // an array under a name, nested wide arrays
+    docs.push(J::Obj(vec![("a".into(), J::Arr((0..70).map(J::int).collect())), ("b".into(), J::Arr((0..17).map(|i| J::Arr((0..i).map(J::int).collect())).collect()))]));
+    // long and unusual strings as values and as member names
+    let bs = boundary_strings();
+    docs.push(J::Arr(bs.iter().map(|s| J::Str(s.clone())).collect()));
+    docs.push(J::Obj(bs.iter().filter(|s| !s.is_empty()).map(|s| (s.clone(), J::Str(s.clone()))).collect::<Vec<_>>()));
+    // numbers at the edges
+    let m = 9007199254740991i64;
+    docs.push(J::Arr(vec![J::int(m), J::int(m - 1), J::int(-m), J::int(m + 1), J::int(i64::MAX), J::int(i64::MIN), J::float(9007199254740992.0), J::float(1e308), J::float(-1e308), J::float(5e-324), J::float(0.1 + 0.2), J::float(0.3), J::int(1 << 31), J::int(-(1 << 31)), J::int((1 << 32) + 1), J::float(4294967296.5)]));
+    // deep nests of both kinds
+    for depth in [16usize, 31, 32, 33, 64, 100, 127, 128, 129, 130, 200, 300] {
+        let mut d = J::Obj(vec![("a".into(), J::int(1)), ("b".into(), J::Arr(vec![J::int(1), J::int(2)]))]);
+        for i in 0..depth {
+            d = if i % 2 == 0 { J::Obj(vec![("a".into(), d), ("c".into(), J::int(i as i64))]) } else { J::Arr(vec![J::int(i as i64), d]) };
+        }
+        docs.push(d);
+    }
+    docs
+}
+
+/// documents too large for the families that convert a document per case: a 100 003-element
+/// array (six-digit indices) and an object with 300 member names that all need escaping
+pub fn huge_docs() -> Vec<J> {
+    vec![
+        J::Arr((0..100_003).map(J::int).collect()),
+        J::Obj(vec![("rows".into(), J::Arr((0..100_003).map(|i| if i % 50_000 == 0 { J::Obj(vec![("a".into(), J::int(i))]) } else { J::int(i) }).collect()))]),
+        J::Obj((0..300).map(|i| (format!("k'{}\\{}", i, if i % 3 == 0 { "\t" } else { "" }), J::Arr(vec![J::int(i), J::Obj(vec![(format!("n'{}", i), J::int(i))])]))).collect()),
+    ]
+}
+pub fn huge_queries() -> Vec<&'static str> {
+    vec!["$[*]", "$[100000]", "$[99999:100002]", "$[-1]", "$[-3:]", "$[::25000]", "$[?@ >= 99999]", "$[?@ == 100000]", "$.rows[100000]", "$.rows[-2]", "$.rows[?@.a]", "$..a", "$.rows[99998:100001:1]", "$.*", "$..*", "$.*[1].*", "$[?@[0] > 290]", "$..[0]"]
+}
+
+/// queries that aim at those boundaries
+pub fn boundary_queries() -> Vec<&'static str> {
+    vec![
+        "$[*]", "$[15]", "$[16]", "$[17]", "$[63]", "$[64]", "$[65]", "$[-1]", "$[-16]", "$[-17]", "$[-64]", "$[-65]", "$[15:18]", "$[62:66]", "$[::16]", "$[::17]", "$[::-16]", "$[16::-1]", "$[-17:]", "$[:17]", "$[:-64]", "$[255:258]", "$[999]", "$[1000]",
+        "$[?@ > 15]", "$[?@ >= 64]", "$[?@.a]", "$[?@.a > 16]", "$[?@[0] > 30]", "$[?length(@) > 16]", "$[?length(@) == 64]", "$[?length(@) >= 255]", "$[?count(@.*) > 1]", "$[?match(@, 's1.*')]", "$[?search(@, '[0-9]{3}')]", "$..a", "$..b[1]", "$..[0]", "$..*",
+        "$.k0016", "$.k0064", "$['k0255']", "$.*.a", "$[?@ == 9007199254740991]", "$[?@ > 9007199254740990]", "$[?@ < -9007199254740990]", "$[?@ == 0.3]", "$[?@ > 1e307]", "$.a[16:18]", "$.a[-17]", "$.b[16][15]", "$.b[*][0]", "$.b[?length(@) > 15]",
+        "$[?length(@) >= 2047]", "$[?length(@) == 2048]", "$[?length(@) == 2049]", "$[?length(@) == 4097]", "$[?length(@) > 9999]", "$[0:200,100:300].a", "$[*,*].a", "$[::-1,:][0]", "$[*,*][0]", "$[0:300,5:260].b[1]", "$[0:260,0:260,::-1].a", "$.*.a", "$[*,*]",
+        "$[0,16,17,64]", "$[*,0]", "$..[-1]", "$..c", "$..a.a.a", "$[?@ == 'aaaaaaaaaaaaaaaa']", "$[?length(@) == 16 || length(@) == 17]",
+    ]
 }
 
 #[derive(Debug, Clone)]
